@@ -25,6 +25,8 @@ def run(tier, seed, jobs):
         "cancelled, later awaits undisturbed, native constructs unaffected, loop idle within 8 "
         "iterations and no live timer after the program; non-trivial = a cancellation was "
         "delivered or absorbed")
+    from .c01 import _conformance
+    _conformance(cov, harness, FAMILY, tier, jobs)
     for v in viol:
         v["signature"] = v["what"][0].split("(")[0][:100]
     return {"level": "exploration", "coverage": cov, "violations": viol,
